@@ -3,6 +3,8 @@
 import json
 props=[json.loads(l) for l in open('/verif/properties.jsonl')]
 CLAIMED = {
+ 'C15': ("conv.ValOf / TypeOf / TypeEnvOf / ValEnvOf executed from the real SSA over a reflect model built on the engine's typed heap: scalars of every width (symbolic contents) convert to the number/string/bool they hold under their tag names; optional markers, nil and non-nil pointers/slices/maps, times, nested structs, pointers to pointers, arrays, maps with primitive keys; the type is the same for every value of the Go type and equals the reported type; twelve unsupported / inconsistent / boundary inputs give an error or are accepted as stated; environments from two samples of one Go type conform",
+         "a fixed catalogue of 4 struct types + containers; slice/map sizes <= 2; reflect itself is modelled (25 functions, DESIGN.md §2.6), validated only by native replay of counterexamples; the depth limit of 100 is not exercised"),
  'C11': ("operand kernels (8/16-bit emit/read, placeholder patching, constant addressing) decided for every non-negative integer: round trip or refusal exactly beyond the width; an independent verifier (complete decode, operand kinds and ranges, argc = arity, call convention = callee laziness, forward in-range jump targets on instruction boundaries, path-independent non-negative stack depth, 1 at return, recursively for deferred-argument bodies) accepts the bytecode of 99 template programs and of wide/deep programs around the 42-slot, 255 and 65535 boundaries",
          "programs from the template families only; widths 41-543 in the quick tier, up to 65536 in the thorough tier; 'at most one step per instruction' follows from forward-only jumps and is not measured"),
  'C05': ("an independent reference checker (the rules of the statement) agrees with types.Check on acceptance and inferred type for 62 one-step programs (every node kind, well and ill typed) over the type catalogue, children of equal types with permuted fields, and four registration orders of extra mono/poly overloads",
